@@ -17,7 +17,7 @@ CLAIMS = {
     'C02': ("Decided: ROLLBACK/abandoned sessions append an ABORT record of their own transaction before END (Verus, chain Session::abort_transaction -> log_abort -> push_to_log); Session::drop aborts only open transactions; WriteAheadLog::run_analysis computes redo = {last status record is COMMIT}, undo = {begun and not redone} and keys every DML/DDL record by its own LSN, for every log (Verus, loop invariant; lemma: the two sets are disjoint when ids are not reused); the aborted-transaction bitmap in page zero records and reports every tracked id exactly (Kani, full domain) and get_aborted_transactions reloads exactly the recorded ids (Verus). The undo pass of recovery dispatches every logged operation of every transaction in the undo set to an undo handler and to nothing else (Verus, run_undo).",
             "Outside: what the undo handlers do to table contents, page steal/write-back interplay; ids >= 8192 are a recorded known finding (C09).",
             "Verus contracts on extracted functions + complete Kani harnesses / function contract on the real crate", "4 C02"),
-    'C03': ("Decided for all inputs: a version created or deleted by an aborted transaction is treated by the visibility predicate exactly as if that transaction never ran (aborted creator => invisible, aborted deleter => ignored), TransactionCoordinator::snapshot copies the full aborted and active sets into every snapshot, and Tuple::delete stores exactly the deleter's id and nothing else (Kani on real bytes, every id below 2^63); DmlExecutor::insert/update/delete stamp every version they write with the writing transaction's own id and touch only rows their snapshot can see (Verus); Tuple::add_version_with increments the version number, leaves no delete mark and changes nothing on failure -- its obligation 'the new version is created by the writer' FAILS on the pinned tree and is the recorded known finding (the new version keeps the previous creator: rolled-back UPDATEs stay visible).",
+    'C03': ("Decided for all inputs: a version created or deleted by an aborted transaction is treated by the visibility predicate exactly as if that transaction never ran (aborted creator => invisible, aborted deleter => ignored), TransactionCoordinator::snapshot copies the full aborted and active sets into every snapshot, and Tuple::delete stores exactly the deleter's id and nothing else (Kani on real bytes, every id below 2^63); DmlExecutor::insert/update/delete stamp every version they write with the writing transaction's own id, touch only rows their snapshot can see, and a DELETE first clears the delete mark a rolled-back transaction left on the row (Verus); Tuple::add_version_with increments the version number, leaves no delete mark and changes nothing on failure -- its obligation 'the new version is created by the writer' FAILS on the pinned tree and is the recorded known finding (the new version keeps the previous creator: rolled-back UPDATEs stay visible).",
             "Outside: TransactionCoordinator::abort, statement-level atomicity of the executors, DDL rollback.",
             "Verus postconditions on verbatim-extracted functions", "4 C03"),
     'C04': ("Decided for all inputs: the visibility predicate (Snapshot::is_committed_before_snapshot, is_tuple_visible, TupleLayout::is_valid_for_snapshot) equals the snapshot-isolation rule 'creator is the reader or committed before the reader began, deleter is neither'; TransactionCoordinator::snapshot always records an upper bound and the active/aborted sets; a lemma connects the predicate to a ghost history; repeatability (verdict is a function of snapshot and version header); TransactionCoordinator::commit never moves the snapshot horizon backwards; validate_write_set reports a conflict whenever a written tuple was committed at or after the writer's start, and otherwise stamps every written tuple with the commit timestamp it drew (first-committer-wins bookkeeping, sequential lock semantics). TupleReader::parse_for_snapshot, on the byte-level delta chain of any well-formed stored tuple: a row deleted for the reader (deleter committed before it, or the reader itself) decodes to nothing, a returned version's creator is visible to the reader and is the NEWEST such version, and nothing is returned only if no version is visible (Verus, loop invariants over the chain). Known finding: Tuple::add_version_with stamps new versions with the previous creator.",
@@ -35,7 +35,7 @@ CLAIMS = {
     'C09': ("Decided (Kani, full domain): page-zero header state that must survive close/reopen -- aborted bitmap set/test/clear exactness and frame, header construction (counters, config fields, aligned page size); reload of the bitmap returns exactly the recorded ids; a checkpoint writes the header and every dirty page and leaves an openable empty log (Verus). Pager::allocate_page / dealloc_page keep the free list recorded in page zero a well-formed chain (see C11) and every page they hand out or free is dirty or already written; every write latch marks its frame dirty before access (Verus); DmlExecutor::insert persists the incremented next-row-id of the table it inserted into; Stats::from_blob reads back what the stored payload holds.",
             "Outside: catalog rows, overflow chains across reopen, Pager::sync_header I/O; ids >= 8192 are dropped by the bitmap (recorded known finding).",
             "complete Kani harnesses + an injected Kani function contract on the real crate + Verus contracts on extracted pager functions", "4 C09"),
-    'C10': ("Decided for all inputs (Verus): Btree::binary_search_page finds a key iff it is present on a sorted page and terminates; Btree::find_child_on_page routes to the child of the first separator greater than the key, else the right child; every cell index stays in bounds. Btree::insert/upsert/update/search_tuple position on the key area of the tuple they are given; CellComparator::compare_keys is the lexicographic order of the key columns at their own byte positions.",
+    'C10': ("Decided for all inputs (Verus): Btree::binary_search_page finds a key iff it is present on a sorted page and terminates; Btree::find_child_on_page routes to the child of the first separator greater than the key, else the right child; every cell index stays in bounds. Btree::get_left_most descends through child 0 of every page (the right child of an interior page that holds no cell) without reading a slot of an empty page, and ends on the leftmost leaf (Verus, decreases over the tree depth); Btree::insert/upsert/update/search_tuple position on the key area of the tuple they are given; CellComparator::compare_keys is the lexicographic order of the key columns at their own byte positions.",
             "Outside: balance/split/merge (800 lines over pager-backed pages), sibling links, overflow reassembly, and the slotted-page layer itself (BtreePage insert/replace/remove/defragment: raw-pointer code that Verus cannot take and Kani cannot finish, DESIGN M14 -- two defects found and repaired there are guarded by demonstration tests only).",
             "Verus contracts with loop invariants on verbatim-extracted functions", "4 C10"),
     'C11': ("Decided for all inputs (Verus, unit pageralloc): against the abstract free list s (first_free = s[0], next(s[i]) = s[i+1], next(last) = None, last_free = s.last(), no duplicates) Pager::allocate_page returns s[0] and leaves the list s[1..] with the page count unchanged, or -- only when the list is empty -- hands out the next fresh page number and grows the file by one; Pager::dealloc_page(id) turns any list s not containing id into s + [id], refuses page zero, writes the freed page's free-format image at its own page id as a whole page and caches it; every frame either function puts into the cache is dirty or already written.",
